@@ -24,7 +24,9 @@ func legacyCall(i int, x int) {
 	case 4:
 		args := []interface{}{nil, 7, new(Leaf), Leaf{}, new(IvUint), new(IvPtrPtr), []int{1}, "s", new(DpRec),
 			new(IvOuterP), IvOuterL{}, new(IvDeepP), new(IvDeepL), new(IvCycA), new(IvCycPB),
-			reflect.TypeOf(IvDeepM{}), reflect.TypeOf(new(IvOuterM)), reflect.TypeOf(Leaf{})}
+			reflect.TypeOf(IvDeepM{}), reflect.TypeOf(new(IvOuterM)), reflect.TypeOf(Leaf{}),
+			// the types under test themselves, in every argument form (by value, by pointer, as reflect.Type)
+			LeafD{}, new(LeafD), reflect.TypeOf(LeafD{}), reflect.TypeOf(new(LeafD)), NsB{}, new(NsB), reflect.TypeOf(NsB{})}
 		for _, a := range args {
 			vrt.Check(Pretouch(a) == nil, "C17 Pretouch accepts any type and never fails")
 			vrt.Check(Pretouch(a, WithMaxInlineDepth(x), WithMaxInlineILSize(x), WithMaxPretouchDepth(x)) == nil, "C17 Pretouch with options never fails")
@@ -56,6 +58,13 @@ func VerifLegacy() {
 	if vrt.ParamOr("t", 0) == 1 {
 		// every container / element class, one element each (symbolic contents)
 		ops = ops_LgAll
+		pv = ops.NewZero()
+		fixedShape = 2
+		ops.Fill(pv, "v")
+		fixedShape = -1
+	} else if vrt.ParamOr("t", 0) == 2 {
+		// default-bearing structs nested by value / by pointer in fields, map values and list elements
+		ops = ops_NsB
 		pv = ops.NewZero()
 		fixedShape = 2
 		ops.Fill(pv, "v")
